@@ -12,11 +12,15 @@ static int keytab[MAXK];          /* keytab[i] == i; keys passed by address */
 static int valtab[MAXV];
 static cstl_map_t map;
 static int cmp_mod;               /* compare keys modulo cmp_mod when > 0 */
+static int cmpmode, cmpcalls;
 
 static int kcmp(const void * a, const void * b, void * p)
 {
     int x = *(const int *)a, y = *(const int *)b; (void)p;
     if (cmp_mod > 0) { x %= cmp_mod; y %= cmp_mod; }
+    cmpcalls++;
+    if (cmpmode == 1) return x - y;
+    if (cmpmode == 2) return ((x > y) - (x < y)) * (1 + (cmpcalls * 7) % 13);
     return (x > y) - (x < y);
 }
 static int kid(const void * k) { return k ? (int)((const int *)k - keytab) : -1; }
@@ -64,13 +68,14 @@ static void run_case(const struct h_case * c)
 
     for (i = 0; i < MAXK; i++) keytab[i] = i;
     ha_reset();
-    cmp_mod = 0;
+    cmp_mod = 0; cmpmode = 0; cmpcalls = 0;
     for (i = 0; i < c->nlines; i++) {
         const struct h_line * l = &c->lines[i];
         int a = (int)h_int(l, 1), b = (int)h_int(l, 2), rc;
         if (h_weq(l, 0, "fail")) { for (k = 1; k < l->nw; k++) if (h_int(l, k) < 4096) ha_fail[h_int(l, k)] = 1; continue; }
         if (h_weq(l, 0, "failfrom")) { ha_fail_from = a; continue; }
         if (h_weq(l, 0, "cmpmod")) { cmp_mod = a; continue; }
+        if (h_weq(l, 0, "cmpmode")) { cmpmode = a; continue; }
         if (!started) { cstl_map_init(&map, kcmp, NULL); started = 1; }
         if (a < 0 || a >= MAXK || b < 0 || b >= MAXV) { printf("precond\n"); return; }
         ha_active = 1;
